@@ -519,6 +519,43 @@ fn c06_temp_through_after(ctx: &mut Ctx, r: &mut StdRng) {
     ctx.scratch.discard(&root);
 }
 
+/// Outputs that contain U+FFFD (or other multi-byte characters): a tampering that replaces the
+/// character's bytes by an ill-formed sequence of the same length must be noticed (verify compares
+/// bytes, not decoded text).
+fn c06_replacement_char(ctx: &mut Ctx, r: &mut StdRng) {
+    let root = ctx.scratch.fresh();
+    let mut files = Files::new();
+    let body = "notes \u{fffd} mid\n-TXTPP#run printf 'r\\357\\277\\275s\\n'\nend \u{fffd}\u{e9}\n".to_string();
+    files.insert("n.md.txtpp".into(), body.into_bytes());
+    materialize(&root, &files, &[]);
+    let mut case = ProjectCase::simple(files);
+    case.threads = [1, 2][r.gen_range(0..2)];
+    let b = run_at(&root, &case, Mode::Build, true);
+    ctx.evals += 1;
+    if !b.verdict.is_ok() {
+        ctx.scratch.discard(&root);
+        return;
+    }
+    let good = std::fs::read(root.join("n.md")).unwrap_or_default();
+    let positions: Vec<usize> = (0..good.len().saturating_sub(2)).filter(|&i| good[i..i + 3] == [0xef, 0xbf, 0xbd]).collect();
+    ctx.count("replacement_char_cases", 1);
+    for &p in &positions {
+        for repl in [[0xf0u8, 0xbf, 0xbd], [0xef, 0xbf, 0xff], [0xc0, 0x80, 0xbd]] {
+            let mut bad = good.clone();
+            bad[p..p + 3].copy_from_slice(&repl);
+            let _ = std::fs::write(root.join("n.md"), &bad);
+            let v = run_at(&root, &case, Mode::Verify, true);
+            ctx.evals += 1;
+            if v.verdict.is_ok() {
+                ctx.violation("C06:accepts-tamper:flip-mid", format!("verify passed although the bytes EF BF BD at offset {p} of n.md were replaced by {repl:02x?} (same length, ill-formed UTF-8)"), json!({"kind": "replacement-char"}));
+            }
+        }
+    }
+    let _ = std::fs::write(root.join("n.md"), &good);
+    ctx.distinct.insert(crate::util::hash_str(&format!("fffd{}{}", case.threads, ctx.evals)));
+    ctx.scratch.discard(&root);
+}
+
 fn run_c06(ctx: &mut Ctx) {
     let mut r = StdRng::seed_from_u64(ctx.shard_seed());
     let n = ctx.tier.pick(40, 1500);
@@ -532,6 +569,9 @@ fn run_c06(ctx: &mut Ctx) {
         }
         if i % 8 == 5 {
             c06_temp_through_after(ctx, &mut r);
+        }
+        if i % 8 == 3 {
+            c06_replacement_char(ctx, &mut r);
         }
         let Some(b) = build_good(ctx, &mut r, &opts, None) else { continue };
         c06_project(ctx, &b, &mut r);
@@ -552,6 +592,11 @@ fn replay_c06(ctx: &mut Ctx, v: &Value) {
         for _ in 0..30 {
             c06_symlinked_output(ctx, &mut r);
         }
+        return;
+    }
+    if v["kind"].as_str() == Some("replacement-char") {
+        let mut r = StdRng::seed_from_u64(5);
+        c06_replacement_char(ctx, &mut r);
         return;
     }
     if v["kind"].as_str() == Some("temp-through-after") {
@@ -948,6 +993,57 @@ fn c07_symlinked_temp(ctx: &mut Ctx, r: &mut StdRng) {
     ctx.scratch.discard(&root);
 }
 
+/// txtpp is run from a sub-directory of the project (`docs/`) and a temp directive writes outside
+/// that directory (`../build/toc.inc`, or an absolute path): clean removes what build created there
+/// as well, and the tree is restored exactly.
+fn c07_temp_outside_base(ctx: &mut Ctx, r: &mut StdRng) {
+    let parent = ctx.scratch.fresh();
+    let base = parent.join("docs");
+    let abs_target = parent.join("build/abs.inc");
+    let mut files = Files::new();
+    files.insert("docs/guide.md.txtpp".into(), format!("guide\n// TXTPP#temp ../build/toc.inc\n// toc line\n\nbetween\n// TXTPP#temp local.inc\n// local\n\nmore\n// TXTPP#temp {}\n// absolute\n\nend\n", abs_target.display()).into_bytes());
+    files.insert("build/keep.txt".into(), b"keep\n".to_vec());
+    materialize(&parent, &files, &[]);
+    set_sentinels(&parent);
+    let s0 = snap(&parent);
+    let absolute_inputs = r.gen_bool(0.4);
+    let inputs: Vec<String> = if absolute_inputs { vec![base.join("guide.md.txtpp").display().to_string()] } else { vec![[".", "guide.md"][r.gen_range(0..2)].to_string()] };
+    let threads = [1usize, 2][r.gen_range(0..2)];
+    let cj = json!({"kind": "temp-outside-base", "inputs": inputs, "threads": threads});
+    let run = |mode: Mode| {
+        // (absolute inputs: the process runs from an unrelated directory)
+        let (b, cwd) = if absolute_inputs { (parent.join("build"), parent.join("build")) } else { (base.clone(), base.clone()) };
+        let cfg = RunCfg { base: b, inputs: inputs.clone(), mode, threads, recursive: false, trailing: true, shell: String::new() };
+        run_inproc(&cfg, Spec::Free { delay: None }, Some(&cwd), false)
+    };
+    let b = run(Mode::Build);
+    ctx.evals += 1;
+    if !b.verdict.is_ok() {
+        if !matches!(b.verdict, Verdict::Watchdog) {
+            ctx.violation("C07:temp-outside-base:build-failed", format!("build failed: {}", b.verdict.short()), cj);
+        }
+        ctx.scratch.discard(&parent);
+        return;
+    }
+    ctx.count("temp_outside_base_cases", 1);
+    ctx.count("files_generated_outside_the_base", diff(&s0, &snap(&parent)).created.iter().filter(|p| p.starts_with("build/")).count() as u64);
+    let c = run(Mode::Clean);
+    ctx.evals += 1;
+    if !matches!(c.verdict, Verdict::Watchdog) {
+        if !c.verdict.is_ok() {
+            ctx.violation("C07:clean-failed", format!("clean failed: {}", c.verdict.short()), cj.clone());
+        } else {
+            let d = diff(&s0, &snap(&parent));
+            if !d.is_empty() {
+                ctx.violation(if !d.created.is_empty() { "C07:left-behind" } else { "C07:deleted-non-generated" }, format!("run from docs/ with temp targets outside it: after build + clean left behind {:?}, missing {:?}, changed {:?} {:?}", d.created, d.deleted, d.content, d.touched), cj.clone());
+            }
+        }
+    }
+    let _ = std::env::set_current_dir("/");
+    ctx.distinct.insert(crate::util::hash_str(&format!("{cj}{}", ctx.evals)));
+    ctx.scratch.discard(&parent);
+}
+
 fn run_c07(ctx: &mut Ctx) {
     let rounds = ctx.tier.pick(3, 60);
     c07_race(ctx, rounds);
@@ -970,6 +1066,9 @@ fn run_c07(ctx: &mut Ctx) {
         if i % 40 == 7 {
             c07_symlinked_temp(ctx, &mut r);
         }
+        if i % 40 == 23 {
+            c07_temp_outside_base(ctx, &mut r);
+        }
         if i == 0 {
             ctx.sample(|| json!({"history": h, "sources": model::sources(&case.files)}));
         }
@@ -979,6 +1078,13 @@ fn run_c07(ctx: &mut Ctx) {
 fn replay_c07(ctx: &mut Ctx, v: &Value) {
     if v["kind"].as_str() == Some("race") {
         c07_race(ctx, 60);
+        return;
+    }
+    if v["kind"].as_str() == Some("temp-outside-base") {
+        let mut r = StdRng::seed_from_u64(7);
+        for _ in 0..30 {
+            c07_temp_outside_base(ctx, &mut r);
+        }
         return;
     }
     if v["kind"].as_str() == Some("symlinked-temp") {
@@ -1249,6 +1355,39 @@ fn c08_edit_history(ctx: &mut Ctx, b: &Built, r: &mut StdRng) {
     }
 }
 
+/// "Building twice equals building once", judged without any model: whatever the first build of a
+/// project does (succeed or fail), the second and third build in the same directory must give the
+/// same verdict and the same tree. The projects here use temp targets whose treatment the README
+/// leaves open (`name.txtpp.ext`, which is itself a source name), so only this relation is judged.
+fn c08_idempotence(ctx: &mut Ctx, r: &mut StdRng) {
+    let root = ctx.scratch.fresh();
+    let target = ["snippet.txtpp.md", "gen.txtpp.py", "sub/part.txtpp.txt", "plain.tmp"][r.gen_range(0..4)];
+    let mut files = Files::new();
+    files.insert("doc.md.txtpp".into(), format!("doc\n// TXTPP#temp {target}\n// generated text\n// -TXTPP#run echo from-generated\n\nend\n").into_bytes());
+    files.insert("sub/keep.txt".into(), b"k\n".to_vec());
+    materialize(&root, &files, &[]);
+    let mut case = ProjectCase::simple(files);
+    case.threads = [1, 2, 4][r.gen_range(0..3)];
+    let mode = if r.gen_bool(0.5) { Mode::Build } else { Mode::InMemoryBuild };
+    let mut seen: Vec<(bool, Files)> = vec![];
+    for _ in 0..3 {
+        let o = run_at(&root, &case, mode.clone(), true);
+        ctx.evals += 1;
+        if matches!(o.verdict, Verdict::Watchdog) {
+            ctx.scratch.discard(&root);
+            return;
+        }
+        seen.push((o.verdict.is_ok(), snap(&root).bytes()));
+    }
+    ctx.count("idempotence_cases", 1);
+    if seen[0] != seen[1] || seen[1] != seen[2] {
+        let extra: Vec<&String> = seen[2].1.keys().filter(|k| !seen[0].1.contains_key(*k)).collect();
+        ctx.violation("C08:not-idempotent", format!("three builds ({}) of the same sources in one directory: verdicts ok = {:?}; files present after the third build but not after the first: {extra:?}", crate::run::mode_name(&mode), seen.iter().map(|s| s.0).collect::<Vec<_>>()), json!({"kind": "idempotence", "target": target}));
+    }
+    ctx.distinct.insert(crate::util::hash_str(&format!("idem{target}{}{}", case.threads, ctx.evals)));
+    ctx.scratch.discard(&root);
+}
+
 fn run_c08(ctx: &mut Ctx) {
     let mut r = StdRng::seed_from_u64(ctx.shard_seed());
     let n = ctx.tier.pick(8, 300);
@@ -1267,6 +1406,7 @@ fn run_c08(ctx: &mut Ctx) {
             c08_crashes(ctx, &b, &mut r, ctx.tier.pick(4, 24));
         }
         c08_edit_history(ctx, &b, &mut r);
+        c08_idempotence(ctx, &mut r);
         if i == 0 {
             ctx.sample(|| json!({"sources": model::sources(&b.case.files), "generated_paths": b.generated(), "prestate_classes": PRESTATES}));
         }
@@ -1275,6 +1415,13 @@ fn run_c08(ctx: &mut Ctx) {
 }
 
 fn replay_c08(ctx: &mut Ctx, v: &Value) {
+    if v["kind"].as_str() == Some("idempotence") {
+        let mut r = StdRng::seed_from_u64(8);
+        for _ in 0..24 {
+            c08_idempotence(ctx, &mut r);
+        }
+        return;
+    }
     if v["step"].as_str() == Some("edit-history") {
         // build the project as it was before the edit, then the recorded (edited) one in place
         let case2 = ProjectCase::from_json(v);
@@ -1623,6 +1770,10 @@ fn c09_big_output(ctx: &mut Ctx, mib: usize) {
 fn c09_dangling_output_link(ctx: &mut Ctx, r: &mut StdRng) {
     let mut results: Vec<(bool, Option<Vec<u8>>)> = vec![];
     let relative = r.gen_bool(0.5);
+    // 0: the link target does not exist yet; 1: it exists with stale content (both modes write
+    // through the link and keep it a link); 2: the output path is a hard link shared with
+    // dist/a.txt (both names must show the fresh content afterwards)
+    let shape = r.gen_range(0..3);
     for mode in [Mode::Build, Mode::InMemoryBuild] {
         let root = ctx.scratch.fresh();
         let mut files = Files::new();
@@ -1630,7 +1781,14 @@ fn c09_dangling_output_link(ctx: &mut Ctx, r: &mut StdRng) {
         files.insert("src/b.txtpp.md".into(), b"b\n".to_vec());
         materialize(&root, &files, &["dist".to_string()]);
         let target = if relative { "../dist/a.txt".to_string() } else { root.join("dist/a.txt").display().to_string() };
-        let _ = std::os::unix::fs::symlink(&target, root.join("src/a.txt"));
+        if shape >= 1 {
+            let _ = std::fs::write(root.join("dist/a.txt"), b"stale content of an earlier build\n");
+        }
+        if shape == 2 {
+            let _ = std::fs::hard_link(root.join("dist/a.txt"), root.join("src/a.txt"));
+        } else {
+            let _ = std::os::unix::fs::symlink(&target, root.join("src/a.txt"));
+        }
         let mut case = ProjectCase::simple(files);
         case.inputs = vec![["src", ".", "src/a.txt.txtpp"][r.gen_range(0..3)].to_string()];
         let o = run_at(&root, &case, mode, true);
@@ -1639,11 +1797,19 @@ fn c09_dangling_output_link(ctx: &mut Ctx, r: &mut StdRng) {
             ctx.scratch.discard(&root);
             return;
         }
-        results.push((o.verdict.is_ok(), std::fs::read(root.join("dist/a.txt")).ok()));
+        let mut seen = std::fs::read(root.join("dist/a.txt")).ok();
+        if shape != 2 && !std::fs::symlink_metadata(root.join("src/a.txt")).map(|m| m.file_type().is_symlink()).unwrap_or(false) {
+            // the output path stopped being a link: mark the observation so that the modes differ visibly
+            seen = seen.map(|mut b| {
+                b.extend_from_slice(b"<output path is no longer a symbolic link>");
+                b
+            });
+        }
+        results.push((o.verdict.is_ok(), seen));
         ctx.scratch.discard(&root);
     }
     ctx.count("dangling_output_link_cases", 1);
-    let cj = json!({"kind": "dangling-output-link", "relative": relative});
+    let cj = json!({"kind": "dangling-output-link", "relative": relative, "shape": shape});
     if results[0].0 != results[1].0 {
         ctx.violation("C09:needed-verdict-differs", format!("output path is a dangling symbolic link: normal build ok={}, needed-build ok={}", results[0].0, results[1].0), cj.clone());
     } else if results[0].1 != results[1].1 {
@@ -1663,7 +1829,9 @@ fn run_c09(ctx: &mut Ctx) {
         c09_dangling_output_link(ctx, &mut r);
     }
     let n = ctx.tier.pick(25, 400);
-    let opts = GenOpts { error_pct: 0, ..GenOpts::default() };
+    // (a target written by two temp directives of one run is rewritten by every run by construction:
+    // "already correct, hence untouched" is only meaningful for targets written once)
+    let opts = GenOpts { error_pct: 0, temp_twice: false, ..GenOpts::default() };
     for i in 0..n {
         if !ctx.time_left() || ctx.violations.len() > 20 {
             break;
